@@ -51,6 +51,17 @@ Section Expanders.
         if Nat.ltb 4 (List.length values) then None else Some (first, second, third, fourth)
     end.
 
+  (* css-cascade 7.3: inherit / initial are only valid as the whole value of a shorthand *)
+  Definition has_wide_keyword (tokens : list tok) : bool :=
+    existsb (fun t => kw_is t "inherit" || kw_is t "initial") tokens.
+
+  (* len == 1: four times ; elif a css-wide keyword among several components: invalid ; elif 2, 3, 4 components *)
+  Definition four_tokens_checked (tokens : list tok) : option (list tok) :=
+    match tokens with
+    | [a] => Some [a; a; a; a]
+    | _ => if has_wide_keyword tokens then None else four_tokens tokens
+    end.
+
   (* the generator is consumed by list(): the first failing validation fails the whole shorthand *)
   Fixpoint validate_each (l : list (string * list tok)) : res outs :=
     match l with
@@ -62,7 +73,7 @@ Section Expanders.
   Definition expand_four_sides (tokens : list tok) (name : string) : res outs :=
     let expanded_names := four_names name in
     if any_var tokens then Ok (map (fun n => (n, VPendingExp tokens name)) expanded_names)
-    else match four_tokens tokens with
+    else match four_tokens_checked tokens with
          | None => Invalid
          | Some four => validate_each (combine expanded_names (map (fun t => [t]) four))
          end.
@@ -226,30 +237,33 @@ Section Expanders.
   Variable is_flex_basis : tok -> bool.                   (* flex_basis([token]) is not None *)
   Variable flex_factor : tok -> option (Q * option Z).    (* flex_grow_shrink([token]): the number, and int(it) when integral *)
 
-  Record flex_state := { fs_grow : option (Q * option Z); fs_shrink : option (Q * option Z); fs_basis : option tok }.
+  (* fs_basis: the token taken as the basis and its position among the tokens *)
+  Record flex_state := { fs_grow : option (Q * option Z); fs_shrink : option (Q * option Z);
+                         fs_basis : option (tok * nat) }.
 
-  Definition is_int_zero (t : tok) : bool :=
-    match t with TNum _ (Some 0%Z) => true | _ => false end.
+  (* token.type == 'number' and token.value == 0: every spelling of the unitless zero *)
+  Definition is_num_zero (t : tok) : bool :=
+    match t with TNum v _ => Qeq_bool v 0 | _ => false end.
 
-  Fixpoint flex_loop (tokens : list tok) (s : flex_state) : res flex_state :=
+  Fixpoint flex_loop (tokens : list tok) (i : nat) (s : flex_state) : res flex_state :=
     match tokens with
     | [] => Ok s
     | t :: r =>
         let grow_found := match fs_grow s with Some _ => true | None => false end in
         let shrink_found := match fs_shrink s with Some _ => true | None => false end in
         let basis_found := match fs_basis s with Some _ => true | None => false end in
-        let forced_flex_factor := is_int_zero t && negb (grow_found && shrink_found) in
+        let forced_flex_factor := is_num_zero t && negb (grow_found && shrink_found) in
         if negb basis_found && negb forced_flex_factor && is_flex_basis t then
-          flex_loop r {| fs_grow := fs_grow s; fs_shrink := fs_shrink s; fs_basis := Some t |}
+          flex_loop r (S i) {| fs_grow := fs_grow s; fs_shrink := fs_shrink s; fs_basis := Some (t, i) |}
         else if negb grow_found then
           match flex_factor t with
           | None => Invalid
-          | Some g => flex_loop r {| fs_grow := Some g; fs_shrink := fs_shrink s; fs_basis := fs_basis s |}
+          | Some g => flex_loop r (S i) {| fs_grow := Some g; fs_shrink := fs_shrink s; fs_basis := fs_basis s |}
           end
         else if negb shrink_found then
           match flex_factor t with
           | None => Invalid
-          | Some g => flex_loop r {| fs_grow := fs_grow s; fs_shrink := Some g; fs_basis := fs_basis s |}
+          | Some g => flex_loop r (S i) {| fs_grow := fs_grow s; fs_shrink := Some g; fs_basis := fs_basis s |}
           end
         else Invalid
     end.
@@ -262,10 +276,16 @@ Section Expanders.
     match single_kw_in tokens ["none"] with
     | Some _ => Ok [("-grow", [TNum 0 (Some 0%Z)]); ("-shrink", [TNum 0 (Some 0%Z)]); ("-basis", [AUTO])]
     | None =>
-        bind (flex_loop tokens {| fs_grow := None; fs_shrink := None; fs_basis := None |}) (fun s =>
+        bind (flex_loop tokens 0 {| fs_grow := None; fs_shrink := None; fs_basis := None |}) (fun s =>
+          (* `basis not in (tokens[0], tokens[-1])`: the flex factors must be next to each other *)
+          if match fs_basis s with
+             | Some (_, i) => negb (Nat.eqb i 0) && negb (Nat.eqb (S i) (List.length tokens))
+             | None => false
+             end then Invalid
+          else
           Ok [("-grow", [num_tok (match fs_grow s with Some g => g | None => ONE end)]);
               ("-shrink", [num_tok (match fs_shrink s with Some g => g | None => ONE end)]);
-              ("-basis", [match fs_basis s with Some b => b | None => ZERO_PX end])])
+              ("-basis", [match fs_basis s with Some (b, _) => b | None => ZERO_PX end])])
     end.
 
   Definition FLEX_NAMES := ["-grow"; "-shrink"; "-basis"].
